@@ -506,3 +506,6 @@ mod test {
         assert_eq!(resume.decompressor().adler32(), Some(459605011));
     }
 }
+
+#[cfg(feature = "verif-hooks")]
+mod verif_hooks;
